@@ -111,6 +111,54 @@ func TestVerifC12(t *testing.T) {
 		run(id, cfg, h)
 	})
 
+	// the thorough tier's witness for the incomplete repair of "recalculation never brings rows back": the ranked
+	// cache's admission threshold was stale when the rows were re-added
+	r.Directed("stale-threshold-witness", func(id string) {
+		for _, bg := range []bool{true, false} {
+			cfg := vfCfg{Kind: "set", Shard: 1, CacheType: CacheTypeRanked, CacheSize: 5, MaxOpN: 5, BG: bg}
+			ops := []vfOp{
+				{K: "bulkImport", Rows: []uint64{0, 1, 101, 1, 101, 99}, Cols: []uint64{1, 1, 1, 2, 2, 458753}},
+				{K: "setRow", Row: 0, Cols: []uint64{0, 2, 458752, 1048575}},
+				{K: "bulkImport", Rows: []uint64{99, 99, 2, 3, 0, 101, 101, 3}, Cols: []uint64{0, 0, 1, 1, 1, 65535, 65535, 65535}},
+				{K: "importRoaring", Rows: []uint64{2, 101, 99, 3, 101, 3, 3}, Cols: []uint64{458753, 1048574, 1048574, 2, 458752, 1048574, 458752}, Enc: "official-run"},
+				{K: "setRow", Row: 99, Cols: []uint64{458752}},
+				{K: "clearRow", Row: 1},
+				{K: "top", N: 7, Enc: "plain"},
+			}
+			run(id, cfg, ops)
+		}
+	})
+
+	// a ranked cache that was over capacity (its admission threshold went up), then rows are cleared until
+	// everything fits again, among it a row whose count is below the old threshold: after a recalculation the
+	// unrestricted TopN must list it (the thorough tier found the repair of "recalculation never brings rows
+	// back" incomplete exactly here)
+	r.Cases("stale-threshold", r.N(48, 1920), func(i int, id string, rng *vk.Rand) {
+		cfg := vfGenCfg(rng, []string{"set"}, []string{CacheTypeRanked}, 5)
+		cfg.CacheSize = uint32(3 + rng.Intn(3))
+		cfg.MaxOpN = []int{5, 100, 10000}[rng.Intn(3)]
+		nrows := int(cfg.CacheSize) + 1 + rng.Intn(2)
+		big := 3 + rng.Intn(3)
+		var h []vfOp
+		for row := 0; row < nrows; row++ {
+			for k := 0; k < big; k++ {
+				h = append(h, vfOp{K: "setBit", Row: uint64(row), Col: uint64(k*7 + row)})
+			}
+		}
+		h = append(h, vfOp{K: "recalc"}, vfOp{K: "top", N: nrows + 2, Enc: "plain"})
+		small := uint64(nrows)
+		h = append(h, vfOp{K: "setBit", Row: small, Col: 1})
+		if rng.Bool() {
+			h = append(h, vfOp{K: "setBit", Row: small, Col: 70000})
+		}
+		// clear rows until the non-empty rows fit the cache again
+		for row := 0; nrows+1-row > int(cfg.CacheSize); row++ {
+			h = append(h, vfOp{K: "clearRow", Row: uint64(row)})
+		}
+		h = append(h, vfOp{K: "recalc"}, vfOp{K: "top", N: nrows + 2, Enc: "plain"})
+		run(id, cfg, h)
+	})
+
 	n := r.N(10000, 400000)
 	r.Cases("hist", n, func(i int, id string, rng *vk.Rand) {
 		cfg := vfGenCfg(rng, []string{"set", "set", "mutex"}, []string{CacheTypeRanked, CacheTypeLRU}, 5) // mutex fragments: a write to one row changes another row's count
